@@ -13,7 +13,7 @@ from .gen import Rng
 
 TRACE_RE = re.compile(r" @trace=(.*)$")
 SORT_OPS = ("clear", "remove_fully", "rmtree")
-ENV_OPS = ("put", "append", "truncate", "del", "rmtree", "mkdir", "symlink", "cat", "stat", "dump", "fsize")
+ENV_OPS = ("put", "append", "truncate", "del", "rmtree", "mkdir", "symlink", "cat", "stat", "dump", "fsize", "wait_until")
 
 
 def direct_content_writes(events, op=""):
@@ -986,6 +986,60 @@ def leg_concurrent(r, rounds, flavours, procs=4, ops_per_proc=40):
 # ---------------------------------------------------------------------------------------------
 # flavour equivalence (C12): one program, four executions
 # ---------------------------------------------------------------------------------------------
+
+def leg_cold_start_race(flavours, rounds, procs=8):
+    """Several processes make their FIRST writes into one cold cache at the same instant (`wait_until`): every
+    directory of the cache is created by whoever gets there first, by the others "already there" must be fine.
+    Every write must succeed (in every serial order they all do), every key must read back, the content area valid."""
+    import subprocess
+    failures, samples = [], []
+    evaluations, kinds = 0, set()
+    for rd in range(rounds):
+        scratch = os.path.join(C.scratch_root(), f"cold{next(E._counter)}")
+        shutil.rmtree(scratch, ignore_errors=True)
+        os.makedirs(scratch)
+        t0 = int(time.time() * 1000) + 400
+        plans, ps = [], []
+        for pi in range(procs):
+            fl = "sa"[(pi + rd) % 2]
+            k, v = b"cold%d" % pi, (b"value %d " % pi) * (1 + 40 * (pi % 3))
+            shared = b"everybody writes this too"
+            ops = [f"wait_until {t0}", w_oneshot(fl, "sha256", k, v), f"write_hash {fl} c0 sha256 {hx(shared)}",
+                   w_oneshot(fl, "sha512", b"same-key", shared), f"read {fl} c0 {hx(k)}", "list c0"]
+            plans.append((ops, k, v))
+            binfl = flavours[pi % len(flavours)]
+            fin = os.path.join(scratch, f".in{pi}"); fout = os.path.join(scratch, f".out{pi}")
+            with open(fin, "wb") as fh:
+                fh.write(("\n".join(ops) + "\n").encode())
+            ps.append((subprocess.Popen([C.drive_bin(binfl), scratch], stdin=open(fin, "rb"), stdout=open(fout, "wb"),
+                                        stderr=subprocess.DEVNULL, env=dict(os.environ, DRIVE_REUSE="1")), fout, binfl))
+        for p, fout, binfl in ps:
+            try:
+                p.wait(timeout=120)
+            except subprocess.TimeoutExpired:
+                p.kill()
+        for (ops, k, v), (p, fout, binfl) in zip(plans, ps):
+            out = open(fout, "rb").read().decode(errors="replace").splitlines()
+            for i, op in enumerate(ops[1:5], start=1):
+                evaluations += 1
+                res = toks(out[i]) if i < len(out) else ["missing"]
+                kinds.add((op.split(" ")[0], res[0] if res[0] != "err" else " ".join(res[:3])))
+                if res[0] != "ok":
+                    f = Failure("write_failed_concurrent", i, f"first operations on a cold cache, {procs} processes at once: `{op[:50]}` "
+                                f"-> {' '.join(res[:3])} ({binfl})", sig={"op": op.split(" ")[0], "cold": True})
+                    f.replay_text = "# each of several processes, released at the same instant on one cold cache:\n" + "\n".join(ops) + "\n"
+                    failures.append(f)
+                elif op.startswith("read ") and unhx(res[1]) != v:
+                    failures.append(Failure("partial_or_mixed_read", i, "a process does not read back its own first write", sig={"op": "read", "cold": True}))
+        il = _run_limited(flavours[0], ["dump c0/content-v2"], scratch)
+        if il:
+            failures += content_valid_monitor(il[0], "after a cold start race")
+        if len(samples) < 2:
+            samples.append({"processes": procs, "start_line_ms": t0})
+        shutil.rmtree(scratch, ignore_errors=True)
+    return {"failures": failures, "disagreements": [], "evaluations": evaluations, "distinct_nontrivial": len(kinds),
+            "samples": samples, "cold_start_rounds": rounds}
+
 
 def leg_flavours(progs, flavours, jobs=16):
     """Each program is executed with all flavour tokens set to `s` and to `a`, on every binary
